@@ -8,8 +8,10 @@
   (`pavStep`, `spav`, …) mirror the Python and are what the driver executes in the correspondence.
 -/
 import VotelibProofs.Lemmas.C12Approval
+import VotelibProofs.Lemmas.C12Spav
+import VotelibProofs.Lemmas.C12Score
 namespace VL.C12
-open VL VL.Appr
+open VL VL.Appr VL.Score
 
 /-- **PAV equals its definition.**  With a valid cache (any history of calls), `evaluate` returns the unique `n`-subset
     of the candidates that maximises the harmonic satisfaction, in the documented order, and refuses
@@ -135,5 +137,150 @@ example : pav [([0, 1], 3), ([2], 2)] 1 = .error .notImplemented := by decide +k
 example : pavSeq [([0, 1], 3), ([2], 2), ([0], 1)] freshCoefs [1, 2, 1]
     = [.ok [Slot.cand 0], .ok [Slot.cand 0, Slot.cand 2], .ok [Slot.cand 0]] := by decide +kernel
 example : WF [([0, 1], 3), ([2], 2), ([0], 1)] := by decide +kernel
+
+/-! ### Sequential PAV -/
+
+/-- **SPAV equals its definition**: round by round the candidate with the strictly greatest reweighted approval
+    `Σ_{ballots approving c} w / (1 + |ballot ∩ elected|)` among those not yet elected; `NotImplementedError` exactly
+    when the greatest value is shared; the elected so far when nobody is left. -/
+theorem spav_eq_spec (votes : Profile) (hwf : WF votes) (n : Nat) : spav votes n = spavSpec votes n :=
+  spavGo_eq_spec hwf n []
+
+/-- **Every SPAV round elects the arg-max.**  If `evaluate` returns `el`, then for every position `i` the candidate
+    `el[i]` stands, was not elected before, and its reweighted approval — computed with the candidates `el[0..i)` elected —
+    strictly exceeds that of every other candidate still standing; and the list is `n` long unless nobody is left. -/
+theorem spav_round_argmax (votes : Profile) (hwf : WF votes) (n : Nat) (el : List Cand) (h : spav votes n = .ok el) :
+    (∀ i (hi : i < el.length), StrictBest votes (el.take i) el[i]) ∧
+    (el.length = n ∨ standing votes el = []) := by
+  rw [spav_eq_spec votes hwf n] at h
+  obtain ⟨suf, hel, hchain, hlen⟩ := spavSpecGo_sound votes n [] el h
+  simp only [List.nil_append] at hel hchain
+  subst hel
+  exact ⟨hchain, hlen⟩
+
+/-- a refusal of SPAV is a genuine tie: some round has no strict winner (stated on the defining recursion through
+    `spav_eq_spec`; the code never raises anything else) -/
+theorem spav_error_is_tie (votes : Profile) (hwf : WF votes) (n : Nat) (e : Err) (h : spav votes n = .error e) :
+    e = .notImplemented := by
+  rw [spav_eq_spec votes hwf n] at h
+  have key : ∀ (k : Nat) (e0 : List Cand), spavSpecGo votes k e0 = .error e → e = .notImplemented := by
+    intro k
+    induction k with
+    | zero => intro e0 h; simp [spavSpecGo] at h
+    | succ k ih =>
+      intro e0 h
+      unfold spavSpecGo at h
+      simp only at h
+      split at h
+      · cases h
+      · split at h
+        · exact ih _ h
+        · injection h with h; exact h.symm
+  exact key n [] h
+
+example : spav [([0, 1], 5), ([0, 2], 4), ([3], 3)] 3 = .ok [0, 3, 1] := by decide +kernel
+example : spav [([0], 2), ([1], 2)] 1 = .error .notImplemented := by decide +kernel
+
+/-! ### Score aggregation -/
+
+/-- **The aggregate of one candidate equals its definition.**  `aggregate_one` — which materialises one list element
+    per vote and calls `exact_mean` / `sum` / `statistics.median_low` — returns the weighted mean `Σ g·w / Σ w`, the
+    weighted sum, or the lower median by counting (the smallest grade whose cumulative weight reaches ⌈W/2⌉), and
+    fails exactly when the mean / median of nothing is asked for. -/
+theorem score_aggregate_eq_spec (fn : Agg) (cs : CScores) : aggregateOne fn cs = aggSpec fn cs := by
+  unfold aggregateOne
+  cases fn with
+  | mean =>
+    simp only [aggFn, aggSpec, exactMean, expand_length, expand_sum]
+  | sum => simp only [aggFn, aggSpec, expand_sum]
+  | medianLow =>
+    simp only [aggFn, aggSpec]
+    by_cases hW : wTotal cs = 0
+    · rw [if_pos hW]
+      have : expand cs = [] := List.eq_nil_of_length_eq_zero (by rw [expand_length]; exact hW)
+      rw [this]; rfl
+    · rw [if_neg hW]
+      obtain ⟨v, h1, h2, _⟩ := medianLow_expand cs hW
+      rw [h1, h2]
+
+/-- **The median aggregate is the lower median**, counted with multiplicity: `v` is returned iff some ballot gave grade
+    `v`, fewer than ⌈W/2⌉ grades (by weight) lie strictly below `v` and at least ⌈W/2⌉ lie at or below it — i.e. `v` is
+    the ⌈W/2⌉-th smallest grade, `W` the number of grades. -/
+theorem mj_median_is_lower_median (cs : CScores) (v : Rat) :
+    aggregateOne .medianLow cs = .ok v ↔
+      (∃ p ∈ cs, p.1 = v ∧ 0 < p.2) ∧ wLt cs v < (wTotal cs + 1) / 2 ∧ (wTotal cs + 1) / 2 ≤ wLe cs v := by
+  unfold aggregateOne
+  simp only [aggFn]
+  by_cases hW : wTotal cs = 0
+  · have hnil : expand cs = [] := List.eq_nil_of_length_eq_zero (by rw [expand_length]; exact hW)
+    rw [hnil, medianLow_nil]
+    constructor
+    · intro h; cases h
+    · rintro ⟨⟨p, hp, _, hpos⟩, _⟩
+      exfalso
+      have : (expand cs) ≠ [] := by
+        intro _
+        have hm : p.1 ∈ expand cs := mem_expand.mpr ⟨p, hp, rfl, hpos⟩
+        rw [hnil] at hm; cases hm
+      exact this hnil
+  · obtain ⟨v0, h1, _, h3, h4, h5⟩ := medianLow_expand cs hW
+    rw [h1]
+    constructor
+    · intro h; injection h with h; subst h; exact ⟨h3, h4, h5⟩
+    · rintro ⟨hm, hlt, hle⟩
+      have k1 : IsKthSmallest (expand cs) ((wTotal cs + 1) / 2) v0 :=
+        ⟨mem_expand.mpr h3, by rw [expand_cntLt]; exact h4, by rw [expand_cntLe]; exact h5⟩
+      have k2 : IsKthSmallest (expand cs) ((wTotal cs + 1) / 2) v :=
+        ⟨mem_expand.mpr hm, by rw [expand_cntLt]; exact hlt, by rw [expand_cntLe]; exact hle⟩
+      rw [kthSmallest_unique k1 k2]
+
+/-- the mean is exact: `Σ g·w / Σ w` as a rational number, defined iff somebody graded the candidate -/
+theorem score_mean_exact (cs : CScores) (hW : wTotal cs ≠ 0) :
+    aggregateOne .mean cs = .ok (wSum cs / ((wTotal cs : Nat) : Rat)) := by
+  rw [score_aggregate_eq_spec]; simp [aggSpec, hW]
+
+/-- **Score voting ranks by the configured aggregate**: the outcome is `get_n_best` of the per-candidate aggregates
+    (so every C09 theorem — strictly-above elected in order, boundary level set elected entirely or reported as a tie —
+    applies to it), and every aggregate is the defining one of the candidate's corrected grade multiset. -/
+theorem score_eq_spec (cfg : Cfg) (votes : SProfile) (n : Nat) :
+    scoreVoting cfg votes n = (convert cfg votes).map (fun agg => getNBest agg n) ∧
+    ∀ agg, convert cfg votes = .ok agg →
+      ∃ t, correctedScores cfg votes = .ok t ∧
+        List.Forall₂ (fun (a : Cand × Rat) (p : Cand × CScores) => a.1 = p.1 ∧ aggSpec cfg.fn p.2 = .ok a.2) agg t := by
+  constructor
+  · unfold scoreVoting
+    cases convert cfg votes <;> rfl
+  · intro agg h
+    unfold convert at h
+    cases ht : correctedScores cfg votes with
+    | error e => rw [ht] at h; cases h
+    | ok t =>
+      rw [ht] at h
+      refine ⟨t, rfl, ?_⟩
+      change aggregate cfg.fn t = .ok agg at h
+      clear ht
+      unfold aggregate at h
+      induction t generalizing agg with
+      | nil =>
+        simp only [List.mapM_nil] at h
+        injection h with h; subst h; exact List.Forall₂.nil
+      | cons p ps ih =>
+        rw [List.mapM_cons] at h
+        cases hv : aggregateOne cfg.fn p.2 with
+        | error e => rw [hv] at h; cases h
+        | ok v =>
+          rw [hv] at h
+          cases hr : ps.mapM (fun p => do let v ← aggregateOne cfg.fn p.2; pure (p.1, v)) with
+          | error e => rw [hr] at h; cases h
+          | ok r =>
+            rw [hr] at h
+            injection h with h
+            subst h
+            refine List.Forall₂.cons ⟨rfl, ?_⟩ (ih r hr)
+            rw [← score_aggregate_eq_spec]; exact hv
+
+example : aggregateOne .medianLow [(5, 3), (2, 2), (3, 1)] = .ok 3 := by decide +kernel
+example : aggregateOne .mean [(5, 1), (2, 2)] = .ok 3 := by decide +kernel
+example : aggregateOne .medianLow [] = .error (.other "StatisticsError") := by decide +kernel
 
 end VL.C12
